@@ -328,6 +328,13 @@ func c04(env *core.Env, kind string, faulty bool) {
 			cerr := error(nil)
 			if werr == nil {
 				cerr = sw.Close()
+			} else if c.Bool("stale.again", 1, 2) {
+				// a refused writer stays refused: a second write must not get through either
+				if _, werr2 := sw.Write([]byte("more-stale-data")); werr2 == nil {
+					if t2 := r.truth(); t2 != t {
+						env.Failf("C04/stale/altered", "after a write at stale offset %d was refused, a second write on the same writer was accepted and changed the upload from %d to %d bytes", stale, t, t2)
+					}
+				}
 			}
 			perr := werr
 			if perr == nil {
